@@ -53,3 +53,41 @@ Definition client_read (meth : bytes) (s : bytes) : option client_view :=
                              is_nil (b_rest b) |}
   | _ => None
   end.
+
+(* ---------- several exchanges on one connection ----------
+
+   The state carried from one exchange to the next is the connection's read buffer: the bytes
+   the server sent that the previous exchange did not consume.  The server answers request i
+   with the segment seg_i (all of it has arrived when the client finishes reading response i -
+   the worst case for bytes sent behind a message).  A [policy] decides after each exchange
+   whether the connection goes back to the idle pool and serves the next request.
+   [reuse_real] is readLoop's decision (both branches, after fix 3c2fb34);
+   [reuse_without_buffer_check] is the decision without `pc.br.Buffered() == 0`
+   (the pinned fork, and net/http, which relies on its read loop noticing the bytes first). *)
+
+Definition policy := resp -> body_result -> bool.
+
+Definition reuse_without_buffer_check : policy := fun r b =>
+  negb (r_close r) && (199 <? r_code r)%Z && (match b_end b with BOk => true | _ => false end).
+Definition reuse_real : policy := fun r b =>
+  reuse_without_buffer_check r b && is_nil (b_rest b).
+
+(* one exchange on a connection whose buffer holds [buf] *)
+Definition exchange (meth : bytes) (buf seg : bytes) : option (resp * body_result) :=
+  match read_final 7 meth 0 (buf ++ seg) with
+  | FhOk r rest => Some (r, read_body conn_bufsize r rest)
+  | _ => None
+  end.
+
+(* the answers handed to the successive requests served by ONE connection (the list ends with
+   the first exchange after which the connection is not reused) *)
+Fixpoint conn_exchanges (pol : policy) (buf : bytes) (reqs : list (bytes * bytes))
+  : list (option (resp * body_result)) :=
+  match reqs with
+  | [] => []
+  | (m, seg) :: more =>
+      match exchange m buf seg with
+      | Some (r, b) => Some (r, b) :: (if pol r b then conn_exchanges pol (b_rest b) more else [])
+      | None => [None]
+      end
+  end.
